@@ -18,7 +18,7 @@ package types
 // ceil(2(n+1)/3) for a group of n voters and one proposer
 //@ func (*Relayer).Threshold
 //@ property C01
-//@ opt mode=fp-threshold
+//@ opt mode=bvfp
 //@ requires relayer != nil
 //@ ensures ceil_two_thirds: result == (2*(len(relayer.Voters)+1) + 2) / 3
 //@ modifies nothing
